@@ -13,8 +13,10 @@ RULE = ("seeded request streams of 4-30 requests mixing synchronous, asynchronou
         "seeded order) and nested (callback into the requester, depth <= 3) requests; handler outcomes: value, reference, "
         "exception, result the serializer rejects while encoding (integer beyond the interpreter's text limit, nesting "
         "beyond the recursion limit, lone-surrogate text), exception whose arguments cannot be encoded, arguments that "
-        "cannot be decoded (unknown local reference, invalid label, wrong arity, unknown handler). distinct = sequence of "
-        "(mode, outcome) pairs; non-trivial = contains at least one anomalous outcome or nesting")
+        "cannot be decoded (unknown local reference, invalid label, wrong arity, unknown handler); plus runs in which 2-3 threads "
+        "serve one connection at once (serve_threaded style) under the controlled scheduler with pre-emption inside _send and "
+        "_dispatch_request. distinct = sequence of (mode, outcome) pairs / switch trace; non-trivial = contains at least one anomalous "
+        "outcome or nesting / a pre-emption")
 ASSUMPTIONS = ["in-memory transport; peer B served by one thread running the real serve_all(), peer A single driver thread",
                "frames are parsed by lib/rv/refcodec.py, not by rpyc"]
 SHARDS = {"quick": 1, "thorough": 16}
@@ -293,8 +295,101 @@ def t_in_nested(t, depth_of):
     return t in depth_of
 
 
+def threaded_serving_run(ctx, seed, policy, nthreads, nreq, p_switch):
+    """the serving side answers from several threads at once (what serve_threaded does): under the controlled scheduler, with
+    pre-emption inside _send and _dispatch_request, every request must still get exactly one response"""
+    import rpyc
+    from rpyc.core.channel import Channel
+    from rpyc.core import consts
+    from rpyc.core.protocol import Connection
+    from rv import vsched
+    log = []
+    Svc = make_service(log)
+    sched = vsched.Sched(seed=seed, policy=policy, p_switch=p_switch, max_steps=120000)
+    net = vnet.Net(waiter=vsched.SchedWaiter(sched))
+    b = Svc()._connect(Channel(net.b), {"sync_request_timeout": None})
+    a = rpyc.VoidService()._connect(Channel(net.a), {"sync_request_timeout": None})
+    vsched.simulate_connection(a, sched, "A")
+    vsched.simulate_connection(b, sched, "B")
+    results = {}
+    state = dict(done=False)
+
+    def server():
+        try:
+            while not state["done"] and not b.closed:
+                b.serve(0.5)
+        except EOFError:
+            pass
+
+    def client():
+        try:
+            root = a.root
+            work = rpyc.async_(root.work)
+            ars = [(i, work("m%d" % i, "value")) for i in range(nreq)]
+            for i, ar in ars:
+                results[i] = ar.value
+            del ars, work, root
+        finally:
+            state["done"] = True
+            a.close()
+    codes = sched.instrument([Connection._send.__code__, Connection._dispatch_request.__code__])
+    try:
+        with vsched.patched_time(sched, spawn=False):
+            sched.spawn(client, name="client")
+            for k in range(nthreads):
+                sched.spawn(server, name="srv%d" % k)
+            ok = sched.run(watchdog=40)
+    finally:
+        vsched.Sched.uninstrument(codes)
+    ctx.case(("threaded-serving", nthreads, nreq, sched.trace_hash()), nontrivial=sched.preemptions > 0)
+    ctx.count("threaded_serving_runs")
+    ctx.count("threaded_serving_preemptions", sched.preemptions)
+    wit = dict(mode="threaded-serving", seed=list(seed) if isinstance(seed, tuple) else seed, policy=policy, nthreads=nthreads, nreq=nreq)
+    if not ok:
+        ctx.inconclusive("wall-clock watchdog in threaded-serving run")
+        return
+    reqs, _ = net.frames("A->B")
+    resps, _ = net.frames("B->A")
+    answered = {}
+    for m in resps:
+        if m["kind"] in (rc.MSG_REPLY, rc.MSG_EXCEPTION):
+            answered[m["seq"]] = answered.get(m["seq"], 0) + 1
+    if sched.deadlock:
+        stranded = len(b._send_queue)
+        ctx.violation("C08/threaded-serving/request-never-answered", "requester waits forever: %d response(s) stranded in the serving side's send queue; "
+                      "blocked: %r" % (stranded, sched.deadlock), wit)
+        return
+    if sched.aborting:
+        if b._send_queue:
+            ctx.violation("C08/threaded-serving/request-never-answered", "the requester waits while %d response(s) sit stranded in the serving "
+                          "side's send queue with no sender left to transmit them" % len(b._send_queue), wit)
+        else:
+            ctx.violation("C08/threaded-serving/livelock", "run aborted: %s" % sched.abort_reason, wit)
+        return
+    for t in sched.tasks:
+        if t.exc is not None:
+            ctx.violation("C08/threaded-serving/task-raised/%s" % type(t.exc).__name__, "task %s raised %r" % (t.name, t.exc), wit)
+    for m in reqs:
+        # release notices sent while the requester tears down may legitimately be cut off by its own close()
+        if m["kind"] == rc.MSG_REQUEST and m.get("handler") not in (rc.HANDLERS["CLOSE"], rc.HANDLERS["DEL"]):
+            n = answered.get(m["seq"], 0)
+            if n != 1:
+                ctx.violation("C08/threaded-serving/%s" % ("no-response" if n == 0 else "duplicate-response"),
+                              "request seq %r got %d responses" % (m["seq"], n), wit)
+    for i in range(nreq):
+        if results.get(i) != ("v", "m%d" % i):
+            ctx.violation("C08/threaded-serving/wrong-result", "request m%d completed with %r" % (i, results.get(i)), wit)
+    if len(set(log)) != len(log):
+        ctx.violation("C08/threaded-serving/handler-ran-twice", "a handler ran twice", wit)
+
+
 def run(ctx):
     rng = ctx.rng
+    for i in range(ctx.budget(400, 60000)):
+        threaded_serving_run(ctx, (ctx.seed, ctx.shard[0], i), "random" if i % 3 else "pct", rng.choice([2, 3]), rng.choice([2, 3, 5]),
+                             rng.choice([0.1, 0.3, 0.6]))
+        if ctx.enough():
+            return
     for i in range(ctx.budget(250, 30000)):
         plan = run_stream(ctx, rng, i)
         if i < 3:
